@@ -68,6 +68,17 @@ def fn_subset(draw):
     return {"src": src, "style": style, "merge": set(doc_names + extra) != set(ns) or doc_names != ns}
 
 
+@st.composite
+def set_default_fn(draw):
+    """def f(opt={"SGD", "sgd", ...}, n={3, 1, 2}, k=5): parameters whose default is a set display"""
+    words = draw(st.lists(st.sampled_from(["SGD", "sgd", "Adam", "adam", "RMSprop", "rmsprop", "Nadam", "lbfgs", "LBFGS"]), min_size=2, max_size=6, unique=True))
+    ints = draw(st.lists(st.integers(-5, 40), min_size=2, max_size=5, unique=True))
+    names = draw(st.lists(gen_ir.names, min_size=3, max_size=3, unique=True))
+    sig = "%s={%s}, %s={%s}, %s=%d" % (names[0], ", ".join(map(repr, words)), names[1], ", ".join(map(str, ints)), names[2], draw(st.integers(0, 9)))
+    doc = "\n".join("    :param %s: the %s" % (a, a) for a in names)
+    return {"src": "def f(%s):\n    \"\"\"\n    Does the thing.\n\n%s\n    \"\"\"\n    return 1\n" % (sig, doc), "style": "rest"}
+
+
 def emitted(fmt, profile="signature", **kw):
     def build(case):
         from vlib import hops
@@ -183,6 +194,9 @@ def build_job(ctx):
                 calls.append([a, key])
 
     add("fn", fn_subset(), ["function_parse", "function_roundtrip", "function_positional", "function_to_class", "function_to_argparse", "function_to_docstring"], n * 2)
+    # set-valued defaults (members that differ only in case, unsorted ints): a Python set is the one value whose own
+    # order depends on the hash seed.  The JSON-schema file is strict; the emitters that print the set are P80
+    add("setdef", set_default_fn(), ["gen_json_file", "function_to_class", "function_to_argparse", "function_roundtrip"], max(2, n // 3), nt=lambda x: True)
     add("cls", emitted("class"), ["class_parse", "class_to_all"], n)
     add("arg", emitted("argparse", "common"), ["argparse_parse"], max(2, n // 2))
     add("odd", odd_typed_class(), ["class_parse", "class_to_all"], n)
@@ -270,7 +284,10 @@ def layer_main(ctx):
             first_text = next(iter(by_digest.values()))[0][3]
             if first_text.startswith("EXC:"):
                 r.exc.append(first_text[:80])
-            if len(by_digest) > 1:
+            if len(by_digest) > 1 and key.startswith("setdef") and api != "gen_json_file" and core.is_open("P80"):
+                r.covered("P80")  # the emitters print a set-valued default in the set's own (hash-seed dependent) order
+                ctx.record([api, key, job["inputs"][key]], r)
+            elif len(by_digest) > 1:
                 (d1, o1), (d2, o2) = list(by_digest.items())[:2]
                 a, b = o1[0], o2[0]
                 r.fail(
